@@ -878,6 +878,14 @@ func (en *Env) callExpr(e *ECall) Val {
 			}
 			kf := en.ex.declFun("aeadkey", []string{sInt}, sInt)
 			return Val{T: types.Typ[types.UnsafePointer], L: []string{app(kf, x.L[1])}}
+		case "aeadkeyoff":
+			// aeadkeyoff(c): offset (within its backing store) of the key slice the AEAD c was created from
+			x := en.eval(e.Args[0])
+			if len(x.L) != 2 {
+				en.fail("aeadkeyoff needs a cipher.AEAD")
+			}
+			kfo := en.ex.declFun("aeadkeyoff", []string{sInt}, bv64)
+			return Val{T: types.Typ[types.Int], L: []string{app(kfo, x.L[1])}}
 		case "fresh":
 			// fresh(x): the object was allocated during this call
 			x := en.eval(e.Args[0])
